@@ -55,7 +55,9 @@ def feed_ops(rng, N, ratio, plan):
     while fed < N:
         il = rng.choice(sizes) if not big else rng.choice([4096, 7001, 16384, 30011])
         il = max(1, min(il, N - fed))
-        ops.append("feed %d %d 0" % (il, int(il / ratio) + 64))
+        # output room: generous, or - without idone, so the library has to take and queue the whole block - short / none at all
+        ol = int(il / ratio) + 64 if rng.chance(.6) else rng.choice([0, 1, 64, int(il / ratio / 3)])
+        ops.append("feed %d %d 0" % (il, ol))
         fed += il
         if len(ops) > 3000:
             big = True
